@@ -137,6 +137,7 @@ PROPS = {
     "C08": {
         "harnesses": [
             {"pkg": "interpreter", "name": "VH_C08_Alias", "quick": {"params": {"K": 2, "KB": 4, "U": 6, "NUMERIC": 0}}, "thorough": {"params": {"K": 3, "KB": 5, "U": 8, "NUMERIC": 1}}},
+            {"pkg": "interpreter", "name": "VH_C08_Twice"},
             # signature opcodes (with executed code separators): only the "transaction unchanged" assertion counts here
             {"pkg": "interpreter", "name": "VH_C06_CheckSig", "only_label_prefix": "assert:C08", "quick": {"params": {"S": 1, "ERA": 0, "HT": 1, "TRAIL": 0, "OUT2": 1}}, "thorough": {"params": {"S": 2, "ERA": 1, "HT": 1}}},
         ],
